@@ -194,6 +194,8 @@ def terms_for(c, o):
             return []
         vals = [go_atoi(f) for f in fields]
         return [('idx', 'IFai %s %s %d %s' % (clist(fields, bl), clist(vals, copt), cl, cb(post(o, 'Record.Position'))))]
+    if op == 'itf8slice':
+        return [('cram', 'CItf8Slice %s %d %s' % (bl(x), cl, cz(o.get('n', 0))))]
     if op == 'cram':
         if cl != 0:
             return []
